@@ -42,6 +42,146 @@ theorem own_reaction_independent (c0 c1 : Cfg) (g : Glob) (s s' : Two) (img : Li
     (rxOn c0 c1 g s false img).1.st0 = (rxOn c0 c1 g s' false img).1.st0 := by
   unfold rxOn; simp only [h0, hw, Bool.false_eq_true, if_false]; exact ⟨trivial, trivial⟩
 
+/-! ## The global list itself (sequential): `g_iface_states` refines "one record per interface context" -/
+
+/-- `g_iface_states`: newest record first, keyed by the interface context pointer -/
+abbrev GList := List (Nat × St)
+
+/-- the walk of `lltd_state_for_iface` -/
+def lookupCtx : GList → Nat → Option St
+  | [], _ => none
+  | (k, s) :: rest, ctx => if k = ctx then some s else lookupCtx rest ctx
+
+/-- the handler works on the record in place -/
+def writeBack : GList → Nat → St → GList
+  | [], _, _ => []
+  | (k, s) :: rest, ctx, st => if k = ctx then (k, st) :: writeBack rest ctx st else (k, s) :: writeBack rest ctx st
+
+/-- parseFrame on the real data structure: `lltd_state_for_iface` walks the list and, on a miss, allocates a record and puts
+    it in front; the handler then works on that record in place -/
+def parseFrameG (cfgOf : Nat → Cfg) (g : Glob) (w : World) (l : GList) (ctx : Nat) (img : List Nat) : GList × World × List Fx × Option Fault :=
+  if !rdOk img 0 (X.sizeofDemux + 4) then (l, w, [], some (.oobRead "parseFrame.header")) else
+  match lookupCtx l ctx with
+  | some s =>
+    let o := parseFrameSt (cfgOf ctx) g w s img
+    (writeBack l ctx o.st, o.w, o.fx, o.fault)
+  | none =>
+    if !(w.malloc X.stateRecBytes).2 then (l, (w.malloc X.stateRecBytes).1, [], none) else
+    let o := parseFrameSt (cfgOf ctx) g (w.malloc X.stateRecBytes).1 {} img
+    ((ctx, o.st) :: l, o.w, o.fx, o.fault)
+
+def keysOf : GList → List Nat
+  | [] => []
+  | (k, _) :: rest => k :: keysOf rest
+
+theorem lookup_writeBack (l : GList) (ctx ctx' : Nat) (st : St) :
+    lookupCtx (writeBack l ctx st) ctx' = if ctx' = ctx then (lookupCtx l ctx).map (fun _ => st) else lookupCtx l ctx' := by
+  induction l with
+  | nil => simp [lookupCtx, writeBack]
+  | cons p ps ih =>
+    obtain ⟨k, s⟩ := p
+    by_cases hk : k = ctx
+    · by_cases hc : ctx' = ctx
+      · simp [lookupCtx, writeBack, hk, hc]
+      · have : ¬ ctx = ctx' := fun e => hc e.symm
+        simp [lookupCtx, writeBack, hk, hc, this, ih]
+    · by_cases hc : ctx' = ctx
+      · subst hc
+        simp only [if_true] at ih
+        simp [lookupCtx, writeBack, hk, ih]
+      · by_cases hk2 : k = ctx'
+        · simp [lookupCtx, writeBack, hk, hc, hk2]
+        · simp [lookupCtx, writeBack, hk, hc, hk2, ih]
+
+theorem keys_writeBack (l : GList) (ctx : Nat) (st : St) : keysOf (writeBack l ctx st) = keysOf l := by
+  induction l with
+  | nil => rfl
+  | cons p ps ih =>
+    obtain ⟨k, s⟩ := p
+    by_cases hk : k = ctx <;> simp [writeBack, keysOf, hk, ih]
+
+theorem lookup_none_notin (l : GList) (ctx : Nat) (h : lookupCtx l ctx = none) : ctx ∉ keysOf l := by
+  induction l with
+  | nil => simp [keysOf]
+  | cons p ps ih =>
+    obtain ⟨k, s⟩ := p
+    by_cases hk : k = ctx
+    · simp [lookupCtx, hk] at h
+    · simp only [lookupCtx, hk, if_false] at h
+      simp only [keysOf, List.mem_cons, not_or]
+      exact ⟨fun e => hk e.symm, ih h⟩
+
+/-- THE LIST REFINEMENT: handling a frame on the real data structure does to the record of its own context, to the world and
+    to the wire exactly what the structural model says, and leaves the record of EVERY other context as it was -/
+theorem list_refines (cfgOf : Nat → Cfg) (g : Glob) (w : World) (l : GList) (ctx : Nat) (img : List Nat) :
+    (∀ ctx', lookupCtx (parseFrameG cfgOf g w l ctx img).1 ctx' =
+        if ctx' = ctx then (parseFrame (cfgOf ctx) g w (lookupCtx l ctx) img).1 else lookupCtx l ctx') ∧
+    (parseFrameG cfgOf g w l ctx img).2 = (parseFrame (cfgOf ctx) g w (lookupCtx l ctx) img).2 := by
+  unfold parseFrameG parseFrame
+  by_cases hrd : (!rdOk img 0 (X.sizeofDemux + 4)) = true
+  · rw [if_pos hrd, if_pos hrd]
+    refine ⟨?_, rfl⟩
+    intro ctx'
+    by_cases hc : ctx' = ctx
+    · simp [hc]
+    · simp [hc]
+  · rw [if_neg hrd, if_neg hrd]
+    cases hl : lookupCtx l ctx with
+    | some s =>
+      refine ⟨?_, rfl⟩
+      intro ctx'
+      simp only []
+      rw [lookup_writeBack, hl]
+      rfl
+    | none =>
+      simp only []
+      by_cases hm : (!(w.malloc X.stateRecBytes).2) = true
+      · rw [if_pos hm, if_pos hm]
+        refine ⟨?_, rfl⟩
+        intro ctx'
+        by_cases hc : ctx' = ctx
+        · simp [hc, hl]
+        · simp [hc]
+      · rw [if_neg hm, if_neg hm]
+        refine ⟨?_, rfl⟩
+        intro ctx'
+        by_cases hc : ctx' = ctx
+        · simp [lookupCtx, hc]
+        · have : ¬ ctx = ctx' := fun e => hc e.symm
+          simp [lookupCtx, hc, this]
+
+/-- the list never holds two records for one context -/
+theorem keys_preserved (cfgOf : Nat → Cfg) (g : Glob) (w : World) (l : GList) (ctx : Nat) (img : List Nat) (h : (keysOf l).Nodup) :
+    (keysOf (parseFrameG cfgOf g w l ctx img).1).Nodup := by
+  unfold parseFrameG
+  by_cases hrd : (!rdOk img 0 (X.sizeofDemux + 4)) = true
+  · rw [if_pos hrd]; exact h
+  · rw [if_neg hrd]
+    cases hl : lookupCtx l ctx with
+    | some s => simp only []; rw [keys_writeBack]; exact h
+    | none =>
+      simp only []
+      by_cases hm : (!(w.malloc X.stateRecBytes).2) = true
+      · rw [if_pos hm]; exact h
+      · rw [if_neg hm]
+        simp only [keysOf, List.nodup_cons]
+        exact ⟨lookup_none_notin l ctx hl, h⟩
+
+/-- over ANY interleaving of frames on any number of interface contexts, the record of a context is what that context's own
+    frames made of it in the structural model (`parseFrame` folded over its own frames only as far as the record goes) -/
+def runG (cfgOf : Nat → Cfg) (g : Glob) : World × GList → List (Nat × List Nat) → World × GList
+  | s, [] => s
+  | (w, l), (ctx, img) :: rest => runG cfgOf g ((parseFrameG cfgOf g w l ctx img).2.1, (parseFrameG cfgOf g w l ctx img).1) rest
+
+theorem keys_history (cfgOf : Nat → Cfg) (g : Glob) (frames : List (Nat × List Nat)) (w : World) (l : GList) (h : (keysOf l).Nodup) :
+    (keysOf (runG cfgOf g (w, l) frames).2).Nodup := by
+  induction frames generalizing w l with
+  | nil => exact h
+  | cons f rest ih =>
+    obtain ⟨ctx, img⟩ := f
+    simp only [runG]
+    exact ih _ _ (keys_preserved cfgOf g w l ctx img h)
+
 /-! ## Thread clause -/
 
 /-- there IS a schedule of two threads seeing their first frame together that loses an interface's state -/
